@@ -79,6 +79,8 @@ type termRun struct {
 	life   *lifecycle.Controller
 	history []string
 	viol   []c01Violation
+	// interleave: environment events may also happen in the middle of a reconcile (before any of its calls)
+	interleave bool
 	// C10 bookkeeping
 	deadline *time.Time // node termination time, once annotated
 	evicted  map[string]bool
@@ -334,11 +336,49 @@ func (t *termRun) extraEvents() []action {
 // run executes one history. The default script is a fair cycle: every enabled controller action in order, then every
 // enabled progress event of the environment, then clock +1s; a deviation (cost 1) inserts any other enabled action or
 // event before the scripted one.
+// interleaveNames: the static superset of environment events that may happen in the middle of a reconcile.
+func (t *termRun) interleaveNames() []string {
+	var out []string
+	names := make([]string, 0, len(t.pods))
+	for n := range t.pods {
+		names = append(names, n)
+	}
+	sort.Strings(names)
+	for _, n := range names {
+		out = append(out, "pod-finished:"+n)
+	}
+	vas := &storagev1.VolumeAttachmentList{}
+	_ = t.w.Raw.List(t.w.Ctx, vas)
+	for i := range vas.Items {
+		out = append(out, "volume-detached:"+vas.Items[i].Name)
+	}
+	out = append(out, "instance-terminated", "instance-vanishes", "node-not-ready", "user-deletes-node")
+	pdbs := &policyv1.PodDisruptionBudgetList{}
+	_ = t.w.Raw.List(t.w.Ctx, pdbs)
+	if len(pdbs.Items) > 0 {
+		out = append(out, "pdbs-allow")
+	}
+	return out
+}
+
 func (t *termRun) run(run *explore.Run, steps int, faults func(c *world.Call) bool, after func(c *world.Call, t *termRun)) {
 	w := t.w
+	if t.interleave {
+		w.AttachInterleave(run, t.interleaveNames(), func(name, before string) bool {
+			for _, a := range append(t.envEvents(), t.extraEvents()...) {
+				if a.name == name {
+					a.do()
+					t.history = append(t.history, "{"+name+" during the reconcile, before "+before+"}")
+					return true
+				}
+			}
+			return false
+		})
+	}
 	var taken *[]world.Injected
 	if faults != nil {
-		taken = w.AttachFaults(run, faults)
+		// a failure may be transient (one call) or persist for the rest of the step (every retry of the same call fails too)
+		taken = w.AttachFaultsOpt(run, faults, true)
 	}
 	if after != nil {
 		w.Client.After = func(c *world.Call) { after(c, t) }
@@ -387,6 +427,7 @@ func (t *termRun) run(run *explore.Run, steps int, faults func(c *world.Call) bo
 		}
 		t.history = append(t.history, menu[k].name)
 		menu[k].do()
+		w.ClearPersistentFaults()
 	}
 	if taken != nil {
 		for _, f := range *taken {
